@@ -107,6 +107,27 @@ class P:
             lab = self.next()[1]
             self.expect(";")
             return ("goto", lab)
+        if val == "while":
+            self.next()
+            self.expect("(")
+            cond = self.expr()
+            self.expect(")")
+            return ("while", cond, self.statement(), None)
+        if val == "for":
+            self.next()
+            self.expect("(")
+            init = self.statement() if self.peek()[1] != ";" else (self.next() and ("block", []))
+            cond = self.expr() if self.peek()[1] != ";" else ("num", 1)
+            self.expect(";")
+            step = None
+            if self.peek()[1] != ")":
+                step = ("expr", self.expr())
+            self.expect(")")
+            return ("block", [init, ("while", cond, self.statement(), step)])
+        if val in ("break", "continue"):
+            self.next()
+            self.expect(";")
+            return (val,)
         if val == "return":
             self.next()
             e = None
@@ -200,6 +221,12 @@ class P:
             op = self.next()[1]
             right = self.assignment()
             return ("assign", op, left, right)
+        if self.peek()[1] == "?":
+            self.next()
+            a = self.assignment()
+            self.expect(":")
+            b = self.assignment()
+            return ("ternary", left, a, b)
         return left
 
     def logic_or(self):
@@ -274,6 +301,9 @@ class P:
             elif val in (".", "->"):
                 self.next()
                 e = ("attr", e, self.next()[1])
+            elif val in ("++", "--"):
+                self.next()
+                e = ("postinc", val, e)
             else:
                 return e
 
@@ -294,6 +324,13 @@ class P:
                 return ("num", 0)
             return ("name", val)
         if val == "(":
+            # C-style cast to an integer type: (int)x, (size_t)x, (unsigned int)x
+            j = self.i
+            while j < len(self.t) and self.t[j][0] == "id" and self.t[j][1] in self.TYPES:
+                j += 1
+            if j > self.i and j < len(self.t) and self.t[j][1] == ")":
+                self.i = j + 1
+                return self.unary()
             e = self.expr()
             self.expect(")")
             return e
@@ -339,6 +376,19 @@ class Gen:
             target = self.ex(e[2], pre)
             pre.append("%s %s= 1" % (target, "+" if e[1] == "++" else "-"))
             return target
+        if k == "postinc":
+            # only as a statement of its own (value unused): same as the prefix form
+            target = self.ex(e[2], pre)
+            pre.append("%s %s= 1" % (target, "+" if e[1] == "++" else "-"))
+            return "None"
+        if k == "ternary":
+            apre, bpre = [], []
+            c = self.ex(e[1], pre)
+            a = self.ex(e[2], apre)
+            b = self.ex(e[3], bpre)
+            if apre or bpre:
+                raise TranspileError("side effect inside ?:")
+            return "(%s if %s else %s)" % (a, c, b)
         if k == "assign":
             target = self.ex(e[2], pre) if e[2][0] != "attr" else self.attr_target(e[2], pre)
             value = self.ex(e[3], pre)
@@ -411,7 +461,7 @@ class Gen:
             pre = []
             v = self.ex(s[1], pre)
             out += [pad + p for p in pre]
-            if s[1][0] not in ("assign", "preinc") and v != "None":
+            if s[1][0] not in ("assign", "preinc", "postinc") and v != "None":
                 out.append(pad + v)
             return out or [pad + "pass"]
         if k == "decl":
@@ -439,6 +489,20 @@ class Gen:
             return out
         if k == "goto":
             return [pad + ctx["goto"](s[1])]
+        if k == "while":
+            pre = []
+            c = self.ex(s[1], pre)
+            if pre:
+                raise TranspileError("side effect in a loop condition")
+            out.append(pad + "while %s:" % c)
+            body = self.stmt(s[2], ind + 1, ctx)
+            if s[3] is not None:
+                if any(l.strip() == "continue" for l in body):
+                    raise TranspileError("continue inside a for loop with a step expression")
+                body += self.stmt(s[3], ind + 1, ctx)
+            return out + body
+        if k in ("break", "continue"):
+            return [pad + k]
         if k == "return":
             pre = []
             v = "None" if s[1] is None else self.ex(s[1], pre)
